@@ -17,6 +17,7 @@ LEVEL_TEXT = (
     'function of the two decoded OPENs; behavioural probes confirm the event (4097-byte message accepted iff extended messages, path '
     'identifiers iff ADD-PATH send, AS_PATH width and AS_TRANS/AS4_PATH follow ASN4, eBGP prepend is the true local AS); OPENs the RFCs '
     'require refusing get their OPEN error subcode.'
+    " Wide configurations (12-21 families, long names) make ExaBGP's own OPEN use the RFC 9072 form; `local-as auto` neighbors."
 )
 LEVEL_NOTE = 'trusts: the reference negotiation function and OPEN codec in this file / refbgp; where only one side sent no MP capability at all the families comparison is skipped (arguable RFC default)'
 DESIGN_REF = 'DESIGN.md section 5, C07'
